@@ -692,6 +692,7 @@ func readHeaderRules(c *Ctx) {
 		}
 		n++
 		var magicOK, numOK, frameOK, chunkOK, lastOK bool
+		lastOK = s.Get("f:lastoffset") == "1"
 		rl := readHeaderRoles(fi)
 		for k, v := range s.m {
 			if !strings.HasPrefix(k, "p:") {
@@ -722,6 +723,35 @@ func readHeaderRules(c *Ctx) {
 		R.Check(chunkOK, "R08d", site+":chunkSize", pos, "success is dominated by chunkSize != 0", "a zero chunk size is accepted (the readers divide by it)", x.Trace()...)
 		R.Check(lastOK, "R08d", site+":lastOffset", pos, "success is dominated by last offset == file size", "a table that does not end at the file size is accepted (truncated or still being written file)", x.Trace()...)
 	}})
+	// the file size by role: the local assigned from FileInfo.Size(); an equality with it that a
+	// helper establishes (the table's last entry against the file size) is kept as a path flag,
+	// since the helper's own locals are forgotten when it returns
+	var sizeObj types.Object
+	ast.Inspect(fi.Decl.Body, func(m ast.Node) bool {
+		if as, ok := m.(*ast.AssignStmt); ok && len(as.Lhs) == 1 && len(as.Rhs) == 1 {
+			if call, ok := ast.Unparen(as.Rhs[0]).(*ast.CallExpr); ok && strings.HasSuffix(fullCalleeName(info, call), "FileInfo).Size") {
+				sizeObj = identObj(info, as.Lhs[0])
+			}
+		}
+		return true
+	})
+	base.H.PostCond = func(x *Exec, cond ast.Expr, truth bool, outs []St) []St {
+		be, ok := ast.Unparen(cond).(*ast.BinaryExpr)
+		if !ok || (be.Op != token.EQL && be.Op != token.NEQ) || sizeObj == nil || x.Parent == nil {
+			return outs
+		}
+		if (be.Op == token.EQL) != truth {
+			return outs
+		}
+		for i := range outs {
+			lt, ok1 := base.Term(x, be.X, outs[i])
+			rt, ok2 := base.Term(x, be.Y, outs[i])
+			if ok1 && ok2 && (lt == objID(sizeObj)) != (rt == objID(sizeObj)) {
+				outs[i] = outs[i].Set("f:lastoffset", "1")
+			}
+		}
+		return outs
+	}
 	base.InlineOwnHelpers()
 	x := NewExec(c.P.FlowOf(fi), base)
 	x.Run(newSt())
@@ -737,36 +767,64 @@ func readHeaderRules(c *Ctx) {
 		return true
 	})
 	R.Check(okMeta, "R08d", c.Cfg+"casblob.readHeader:metadataSize", c.P.Pos(fi.Decl.Pos()), "the expected frame size is 8*numOffsets + 21 (= header size - 8)", "metadataSize is not 8*numOffsets + 21")
-	// strictly increasing loop
+	// strictly increasing loop, in readHeader or in a helper split off it: a loop over the whole
+	// table whose body rejects `current <= previous` (returns) and then advances previous = current
 	okInc := false
-	ast.Inspect(fi.Decl.Body, func(m ast.Node) bool {
-		f, ok := m.(*ast.ForStmt)
-		if !ok {
-			return true
-		}
-		for _, st := range f.Body.List {
-			if is, ok := st.(*ast.IfStmt); ok {
-				if be, ok := is.Cond.(*ast.BinaryExpr); ok && be.Op == token.LEQ && strings.Contains(exprStr(be.X), ".chunkOffsets[") && exprStr(be.Y) == readHeaderRoles(fi)["prevOffset"] {
-					if _, isRet := is.Body.List[len(is.Body.List)-1].(*ast.ReturnStmt); isRet {
-						okInc = true
+	for _, body := range helperBodies(c, fi) {
+		ast.Inspect(body, func(m ast.Node) bool {
+			var loopBody *ast.BlockStmt
+			whole := false
+			var cur func(e ast.Expr) bool
+			switch f := m.(type) {
+			case *ast.ForStmt:
+				loopBody = f.Body
+				if be, ok := f.Cond.(*ast.BinaryExpr); ok && be.Op == token.LSS && exprStr(be.Y) == readHeaderRoles(fi)["numOffsets"] {
+					whole = true
+				}
+				cur = func(e ast.Expr) bool { return strings.Contains(exprStr(e), ".chunkOffsets[") }
+			case *ast.RangeStmt:
+				loopBody = f.Body
+				if sl, ok := info.TypeOf(f.X).Underlying().(*types.Slice); ok && sl.Elem().String() == "int64" && f.Value != nil {
+					whole = true
+					vo := identObj(info, f.Value)
+					cur = func(e ast.Expr) bool { return vo != nil && identObj(info, e) == vo }
+				}
+			}
+			if loopBody == nil || cur == nil || !whole {
+				return true
+			}
+			var prev types.Object
+			rejects := false
+			for _, st := range loopBody.List {
+				if is, ok := st.(*ast.IfStmt); ok {
+					if be, ok := is.Cond.(*ast.BinaryExpr); ok && len(is.Body.List) > 0 {
+						c0, p0 := be.X, be.Y
+						op := be.Op
+						if op == token.GEQ {
+							c0, p0, op = be.Y, be.X, token.LEQ
+						}
+						if op == token.LEQ && cur(c0) {
+							if _, isRet := is.Body.List[len(is.Body.List)-1].(*ast.ReturnStmt); isRet {
+								if po := identObj(info, p0); po != nil {
+									prev, rejects = po, true
+								}
+							}
+						}
 					}
 				}
 			}
-		}
-		// prevOffset = h.chunkOffsets[i]
-		adv := false
-		for _, st := range f.Body.List {
-			if as, ok := st.(*ast.AssignStmt); ok && exprStr(as.Lhs[0]) == readHeaderRoles(fi)["prevOffset"] && strings.Contains(exprStr(as.Rhs[0]), ".chunkOffsets[") {
-				adv = true
+			adv := false
+			for _, st := range loopBody.List {
+				if as, ok := st.(*ast.AssignStmt); ok && len(as.Lhs) == 1 && len(as.Rhs) == 1 && prev != nil && identObj(info, as.Lhs[0]) == prev && cur(as.Rhs[0]) {
+					adv = true
+				}
 			}
-		}
-		okInc = okInc && adv
-		// covers the whole table
-		if be, ok := f.Cond.(*ast.BinaryExpr); !ok || be.Op != token.LSS || exprStr(be.Y) != readHeaderRoles(fi)["numOffsets"] {
-			okInc = false
-		}
-		return true
-	})
+			if rejects && adv {
+				okInc = true
+			}
+			return true
+		})
+	}
 	R.Check(okInc, "R08d", c.Cfg+"casblob.readHeader:increasing", c.P.Pos(fi.Decl.Pos()), "every table entry must be strictly greater than its predecessor (offset <= previous rejects), over the whole table", "the strictly-increasing check over the whole chunk table was not found")
 
 	for _, key := range []string{"casblob.GetUncompressedReadCloser", "casblob.GetZstdReadCloser"} {
